@@ -1,0 +1,26 @@
+//go:build verif
+
+package search
+
+import (
+	"github.com/paulsonkoly/chess-3/heur"
+	"github.com/paulsonkoly/chess-3/transp"
+)
+
+// VerifDigest is a digest of the state s carries over between searches: the
+// transposition table contents, the generation counter and the histories.
+func (s *Search) VerifDigest() uint64 {
+	h := s.tt.VerifDigest()
+	h = (h ^ uint64(s.gen)) * 0x100000001b3
+	h = (h ^ s.ranker.VerifDigest()) * 0x100000001b3
+	return h
+}
+
+// VerifRanker exposes the move ranker of s.
+func (s *Search) VerifRanker() *heur.MoveRanker { return &s.ranker }
+
+// VerifTT exposes the transposition table of s.
+func (s *Search) VerifTT() *transp.Table { return s.tt }
+
+// VerifGen is the current generation counter of s.
+func (s *Search) VerifGen() transp.Gen { return s.gen }
